@@ -113,13 +113,14 @@ C01_BASE = {'VCAP': 8, 'NC': 2, 'NFIXED': 0, 'NROWS': 2, 'TALLCHOICES': 2, 'POLC
 P['C01'] = dict(
   design_ref='DESIGN.md section 3 C01',
   level_text='Circuit::legalize executed end to end by the solver-backed executor on tiny circuits with symbolic geometry: whenever it returns, every movable cell has its bottom edge on a row, each row-high strip inside one free segment of computeRows(), no two movable cells overlap, orientations are as the polarity prescribes; when it throws the placement is unchanged; it does not throw when success is trivial. Widths, initial positions (far outside the rows included), row width, fixed obstruction geometry are symbolic; cell kinds, polarities, row orientation patterns and parameter sets are enumerated.',
-  text=dict(bounds=dict(quick='2 movable cells (cell 0 row-high or 2 rows high), widths symbolic 1..12, x symbolic in [-64,128], y enumerated in {-7,6,19}, 2 rows (N,FS) of symbolic width 8..64, cell 0 all 5 polarities, cell 1 ANY, default ordering parameters',
+  text=dict(bounds=dict(quick='2 movable cells (cell 0 row-high or 2 rows high), widths symbolic 1..12, x symbolic in [-64,128], y enumerated in {-7,6,19}, 2 rows (N,FS) of symbolic width 8..64, cell 0 all 5 polarities, cell 1 ANY, default ordering parameters; H01T: both cells two rows high (widths 9 and 4), 1 fixed obstruction of symbolic width and x covering all rows (two segments per row), polarity ANY',
                         thorough='H01E: 4 row patterns, 8 orientations for ANY cells, 5x5 polarities, 3 ordering parameter sets; H01EY: y symbolic too (3 polarities); H01EF: + 1 fixed cell (obstruction flag, symbolic size/position), 3 rows with optional gap; H01E3: 3 movable cells (widths 4/9)'),
             outside='more than 3 movable cells / 3 rows / 1 fixed cell; several segments per y other than those produced by one obstruction; efforts other than 1 (legalization parameters do not depend on the effort)'),
   assumptions=STD_ASSUME + [BOOST_ASSUME, 'legalization processing order over-approximated: every outcome of each float key comparison is explored (FP havoc), so the claims hold for any processing order'],
   harnesses=[
     dict(name='H01E', src='C01_legalize.cpp', covers=['legalize ended', 'legalize returned', 'legalize threw', 'end'], defines=dict(C01_BASE, YCHOICE=None, POL1CHOICES=1, ROWPATTERNS=1), cfg=dict(fp='havoc'), split=2, ir_srcs=ALL_IR, native_srcs=ALL_IR, native_flags=['-llemon'],
          thorough=dict(defines={'ROWPATTERNS': 4, 'ORICHOICES': 8, 'POL1CHOICES': 5, 'PARAMSETS': 3})),
+    dict(name='H01T', src='C01_legalize.cpp', covers=['legalize ended', 'legalize returned', 'end'], defines=dict(C01_BASE, YCHOICE=None, WCHOICE=None, NFIXED=1, FIXEDFULL=None, TALLALL=2, POLCHOICES=1, POL1CHOICES=1, ROWPATTERNS=1, VCAP=10), cfg=dict(fp='havoc', time_budget=60), split=3, ir_srcs=ALL_IR, native_srcs=ALL_IR, native_flags=['-llemon']),
     dict(name='H01EY', src='C01_legalize.cpp', tiers=('thorough',), covers=['legalize ended', 'end'], defines=dict(C01_BASE, POLCHOICES=3, ROWPATTERNS=1), cfg=dict(fp='havoc', time_budget=900), split=4, ir_srcs=ALL_IR, native_srcs=ALL_IR, native_flags=['-llemon']),
     dict(name='H01EF', src='C01_legalize.cpp', tiers=('thorough',), covers=['legalize ended', 'end'], defines=dict(C01_BASE, YCHOICE=None, NFIXED=1, NROWS=3, GAPCHOICES=2, POLCHOICES=2, TALLCHOICES=2, VCAP=10), cfg=dict(fp='havoc', time_budget=900), split=3, ir_srcs=ALL_IR, native_srcs=ALL_IR, native_flags=['-llemon']),
     dict(name='H01E3', src='C01_legalize.cpp', tiers=('thorough',), covers=['legalize ended', 'end'], defines=dict(C01_BASE, NC=3, VCAP=10, YCHOICE=None, WCHOICE=None, POLCHOICES=2, POL1CHOICES=2), cfg=dict(fp='havoc', time_budget=900), split=2, ir_srcs=ALL_IR, native_srcs=ALL_IR, native_flags=['-llemon']),
